@@ -201,7 +201,8 @@ def truth_at(traj, t):
     return np.array([np.interp(t, ts, traj[c].values) for c in traj.columns])
 
 
-def make_measurements(samples, slots, traj, log, vertical_offsets=False, unsorted=False, lever=None):
+def make_measurements(samples, slots, traj, log, vertical_offsets=False, unsorted=False, lever=None, big=False,
+                      nan_vertical=False):
     """Spy measurement objects (subclasses of the public classes) for a sample set."""
     from pyins import measurements, transform
     by = {'P': [], 'V': [], 'B': []}
@@ -226,6 +227,8 @@ def make_measurements(samples, slots, traj, log, vertical_offsets=False, unsorte
         for j, t in enumerate(ts):
             p = truth_at(traj, t)
             d = np.array([3.0 + j, -2.0, 1.5 if not vertical_offsets else 40.0])
+            if big:
+                d[:2] = [2000.0 + j, -1500.0]        # kilometre-size fixes: corrections far beyond any linear range
             rows.append(transform.perturb_lla(p[:3], d))
         df = pd.DataFrame(rows, index=ts, columns=['lat', 'lon', 'alt'])
         out.append(spy(measurements.Position, 'P')(df, 2.0, imu_to_antenna_b=lever))
@@ -237,6 +240,8 @@ def make_measurements(samples, slots, traj, log, vertical_offsets=False, unsorte
             rows.append(p[3:6] + np.array([0.1, -0.15 - 0.01 * j,
                                            0.05 if not vertical_offsets else 5.0]))
         df = pd.DataFrame(rows, index=ts, columns=['VN', 'VE', 'VD'])
+        if nan_vertical:
+            df['VD'] = np.nan                        # horizontal-only velocity fixes (2D mode drops the vertical row)
         out.append(spy(measurements.NedVelocity, 'V')(df, 0.2, imu_to_antenna_b=lever))
     if by['B']:
         ts = sorted(by['B'], reverse=unsorted)      # unsorted: rows of the table in reverse time order
@@ -284,7 +289,8 @@ def run_filter(kind, case):
     log = []
     meas, by = make_measurements([tuple(s) for s in case['samples']], slots, traj, log,
                                  case.get('vert', False), case.get('unsorted', False),
-                                 np.array([2.0, -1.0, 0.5]) if case.get('lever') else None)
+                                 np.array([2.0, -1.0, 0.5]) if case.get('lever') else None,
+                                 case.get('big', False), case.get('nan_vertical', False))
     gm, am = make_models(case.get('models', 'bias'))
     form = case.get('form', 'list')
     kwargs = dict(time_step=step, with_altitude=wa)
